@@ -87,14 +87,17 @@ structure PInv (st : PState) : Prop where
   typed : Typed st.mem st.data
   /-- the files always reconstruct the in-memory field set -/
   disk : SEq (replay (st.idx.getD []) (st.log.getD []).flatten) st.mem
+  /-- every measurement that has stored values has a series in the index -/
+  seriesOK : ∀ e ∈ st.data, st.series.contains e.1.1 = true
 
 theorem pinv_init : PInv {} := by
-  refine ⟨?_, ?_, ?_, ?_, ?_⟩
+  refine ⟨?_, ?_, ?_, ?_, ?_, ?_⟩
   · show ([] : List FKey).Nodup; exact List.nodup_nil
   · show ([] : List FKey).Nodup; exact List.nodup_nil
   · show ([] : List EKey).Nodup; exact List.nodup_nil
   · intro e he; cases he
   · intro k; rfl
+  · intro e he; cases he
 
 theorem seen_eq (st : PState) (h : PInv st) : seen st = { sch := st.mem, store := some st.data } := by
   unfold seen; rw [visible_typed _ _ h.typed]
@@ -102,13 +105,15 @@ theorem seen_eq (st : PState) (h : PInv st) : seen st = { sch := st.mem, store :
 /-- opening any crash state whose files reconstruct `target` -/
 theorem reopen_inv (stc : PState) (n : Nat) (target : Schema)
     (hIdx : ND (stc.idx.getD [])) (hData : (stc.data.map (·.1)).Nodup)
+    (hSer : ∀ e ∈ stc.data, stc.series.contains e.1.1 = true)
     (hseq : SEq (replay (stc.idx.getD []) (cutLog (stc.log.getD []) n).flatten) target)
     (hT : Typed target stc.data) :
     ∃ st', openFields stc n = some st' ∧ PInv st' ∧ SEq st'.mem target ∧ st'.data = stc.data := by
-  obtain ⟨st', h0, h1, h2, _, h4, h5⟩ := openFields_spec stc n (typed_congr hseq.symm _ hT)
+  obtain ⟨st', h0, h1, h2, h3, h4, h5⟩ := openFields_spec stc n (typed_congr hseq.symm _ hT)
   have hnd : ND st'.mem := by rw [h1]; exact nd_replay _ _ hIdx
-  refine ⟨st', h0, ⟨hnd, by rw [h4]; exact hnd, by rw [h2]; exact hData, ?_, ?_⟩, by rw [h1]; exact hseq, h2⟩
+  refine ⟨st', h0, ⟨hnd, by rw [h4]; exact hnd, by rw [h2]; exact hData, ?_, ?_, ?_⟩, by rw [h1]; exact hseq, h2⟩
   · rw [h2]; exact typed_congr (by rw [h1]; exact hseq.symm) _ hT
   · rw [h4, h5]; exact SEq.refl _
+  · rw [h2, h3]; exact hSer
 
 end Influx.Fields
